@@ -133,7 +133,10 @@ def cases(tier):
     N = 16 if tier == "thorough" else 8
     for uname, mk, ports in units():
         for c0, c1 in itertools.permutations(ports, 2):
-            for n in ([1, 2, 3, N] if tier != "thorough" else range(1, N + 1)):
+            sizes = list([1, 2, 3, N] if tier != "thorough" else range(1, N + 1))
+            if uname in ("R", "Nmos", "BMod", "Mod"):
+                sizes += [11, 12, 23]         # (element names of two digits: units_9 < units_10 only as numbers)
+            for n in sizes:
                 for by in ("name", "signal", "signal-name", "name-signal"):
                     if by in ("signal-name", "name-signal") and n not in (1, 3):
                         continue
